@@ -1,8 +1,10 @@
 (* C08 — segment detrending removes polynomial trends and nothing else (statements only).
-   PARTIAL: proved for order 0 (constants) and order -1 (raw); orders 1,2 (projection on the QR basis) are decided by the
-   regenerated-kernel equality (which alpha goes to which channel) plus the oracle sweep with the LAPACK basis. *)
+   Order 0 (constants) and order -1 (raw) are proved outright. Orders 1,2 are proved for ANY basis Q with orthonormal columns:
+   adding any combination of the basis columns (each channel with its own coefficients, each segment with its own) changes
+   nothing. That LAPACK's Q is orthonormal and spans 1, t, t^2 is the oracle contract validated numerically on every run;
+   that a trend of degree p+1 DOES change the estimate is decided by the sweep against the definition. *)
 From Coq Require Import ZArith List Bool Reals.
-From SK Require Import Arith KernelPrims Kernels KernelThms KernelThms2 GenRef.
+From SK Require Import Arith KernelPrims Kernels KernelThms KernelThms2 GenRef DetrendPoly.
 From SK.gen Require Import KernelsGen.
 Import ListNotations.
 Theorem C08_detrend0_kills_constants : forall (x x' w : list R) (c : R) (s L : Z), (1 <= L)%Z ->
@@ -18,6 +20,14 @@ Theorem C08_numba_detrend0_invariant : forall (x x' w : list R) (c : R) (starts 
   (forall s n, In s starts -> (0 <= n < L)%Z -> nthT RA x' (s + n) = (nthT RA x (s + n) + c)%R) ->
   gen_stats_detrend0_auto RA cos sin x' starts L w omega = gen_stats_detrend0_auto RA cos sin x starts L w omega.
 Proof. intros. rewrite !Gen_detrend0_auto_ref. apply (stats_invariant_under_offset _ _ x x' w c); assumption. Qed.
+Theorem C08_poly_kills_span_auto : forall (Q : list (list R)) (L : Z) (cosw sinw : R) x x' w (starts : list Z) (cs : Z -> nat -> R),
+  (0 <= L)%Z -> orthonormal Q L -> (forall s, In s starts -> plus_span Q L x x' s (cs s)) ->
+  ref_auto RA cosw sinw (samp_poly RA x' w Q L) starts L = ref_auto RA cosw sinw (samp_poly RA x w Q L) starts L.
+Proof. exact stats_invariant_under_span. Qed.
+Theorem C08_poly_kills_span_cross_numba : forall (Q : list (list R)) (L : Z) omega x1 x1' x2 x2' w (starts : list Z) (c1 c2 : Z -> nat -> R),
+  (0 <= L)%Z -> orthonormal Q L -> (forall s, In s starts -> plus_span Q L x1 x1' s (c1 s)) -> (forall s, In s starts -> plus_span Q L x2 x2' s (c2 s)) ->
+  gen_stats_poly_csd RA cos sin x1' x2' starts L w omega Q = gen_stats_poly_csd RA cos sin x1 x2 starts L w omega Q.
+Proof. intros. rewrite !Gen_poly_csd_ref. apply (stats_invariant_under_span_csd Q L _ _ x1 x1' x2 x2' w starts c1 c2); assumption. Qed.
 Theorem C08_order_m1_is_raw : forall (x w : list R) s n, samp_win RA x w s n = (nthT RA x (s + n) * nthT RA w n)%R.
 Proof. exact order_m1_is_raw. Qed.
 (* each channel is detrended with its own coefficients: the regenerated cross kernels equal the reference that does so *)
@@ -29,3 +39,4 @@ Theorem C08_detrend0_csd_each_channel_own_mean : forall (A : Arith) c s (x1 x2 w
 Proof. intros. apply Gen_detrend0_csd_ref. Qed.
 Print Assumptions C08_numba_detrend0_invariant.
 Print Assumptions C08_poly_csd_each_channel_own_alpha.
+Print Assumptions C08_poly_kills_span_cross_numba.
